@@ -291,7 +291,9 @@ void run_tree(std::string const& pname, std::vector<Big> const& space)
             // semantic label: adding half a destination unit to the source rep leaves the source type's range
             using rtr = typename cv::scale_of<TR>::rep;
             Big srep = (want.v / Rat::scaled(Big(1), 2, exp_of<TR>)).trunc();
-            if (srep.abs() + Big::pow2(exp_of<T> - exp_of<TR> - 1) > cv::max_of<rtr>()) labels += "/bias_overflows_source";
+            // (nearest / tie_to_pos_inf add half a unit; neg_inf reaches the floor through a bias of one unit minus one source step)
+            Big const bias = RM == 3 ? Big::pow2(exp_of<T> - exp_of<TR>) - Big(1) : Big::pow2(exp_of<T> - exp_of<TR> - 1);
+            if (srep.abs() + bias > cv::max_of<rtr>()) labels += "/bias_overflows_source";
         }
         check_narrow<T, OM>("narrow", expect, want_rep, id(), labels, [&] { return T(cnl_eval(Tree{}, vals)); });
     }
@@ -357,10 +359,17 @@ template<class T, class RT, class OT>
             };
             step("a=a+b", va + vb, false, [&] { T x = a; x = T(x + b); return x; });
             step("a=a-b", va - vb, false, [&] { T x = a; x = T(x - b); return x; });
-            step("a=a*b", va * vb, exp_of<T> < 0, [&] { T x = a; x = T(x * b); return x; });
+            bool mul_bias_over = false;
+            if constexpr (exp_of<T> < 0) {
+                using TM = decltype(a * b);
+                using rtm = typename cv::scale_of<TM>::rep;
+                Big const bias = RM == 3 ? Big::pow2(exp_of<T> - exp_of<TM>) - Big(1) : Big::pow2(exp_of<T> - exp_of<TM> - 1);
+                mul_bias_over = (ra * rb).abs() + bias > cv::max_of<rtm>();
+            }
+            step("a=a*b", va * vb, exp_of<T> < 0, [&] { T x = a; x = T(x * b); return x; }, mul_bias_over);
             step("a+=b", va + vb, false, [&] { T x = a; x += b; return x; });
             step("a-=b", va - vb, false, [&] { T x = a; x -= b; return x; });
-            step("a*=b", va * vb, exp_of<T> < 0, [&] { T x = a; x *= b; return x; });
+            step("a*=b", va * vb, exp_of<T> < 0, [&] { T x = a; x *= b; return x; }, mul_bias_over);
             if (!rb.is_zero()) {
                 // a/b at the resolution of decltype(a/b), then narrowed
                 using TQ = decltype(a / b);
@@ -369,7 +378,8 @@ template<class T, class RT, class OT>
                 bool bias_over = false;
                 if constexpr (exp_of<TQ> < exp_of<T>) {
                     using rtq = typename cv::scale_of<TQ>::rep;
-                    bias_over = (q / uq).trunc().abs() + Big::pow2(exp_of<T> - exp_of<TQ> - 1) > cv::max_of<rtq>();
+                    Big const bias = RM == 3 ? Big::pow2(exp_of<T> - exp_of<TQ>) - Big(1) : Big::pow2(exp_of<T> - exp_of<TQ> - 1);
+                    bias_over = (q / uq).trunc().abs() + bias > cv::max_of<rtq>();
                 }
                 step("a=a/b", q, exp_of<TQ> < exp_of<T>, [&] { T x = a; x = T(x / b); return x; }, bias_over);
                 step("a/=b", q, exp_of<TQ> < exp_of<T>, [&] { T x = a; x /= b; return x; }, bias_over);
